@@ -8,6 +8,7 @@ import re
 from ..engine.mutate import Mutant, Variant, in_function, replace_once
 from ..engine.runner import Rule
 from ..engine.source import AnalysisError
+from . import shared
 from .common import callee_name, calls_in, kwarg
 
 EXPLANATION = (
@@ -356,21 +357,7 @@ def rule_ingredients(ctx):
     ctx.check(path_hashed, uf.fq, "the path is hashed with its file hash", "paths are not part of the digest: renaming an input is not detected", "hashed")
     wo = ctx.prog.func("hash.StepHash.with_out_hashes")
     ctx.check("_update_file_hashes(hw, out_hashes)" in ast.unparse(wo.node), wo.fq, "output digest is built by the same helper", "output digest uses another encoder", "shared helper")
-    # call sites in the executor pass every ingredient from the step's own row
-    ex = ctx.prog.module("executor")
-    n = 0
-    for f in ex.all_funcs.values():
-        for c in calls_in(f.node):
-            if ast.unparse(c.func) == "StepHash.from_inp":
-                n += 1
-                args = [ast.unparse(a) for a in c.args]
-                kws = {k.arg: ast.unparse(k.value) for k in c.keywords}
-                ok = args[0] == "run.step.label" and "all_hashes" in args[1] and "for name in env_deps" in args[2] and kws.get("shell") == "shell" and kws.get("env_overrides") == "env_overrides"
-                ctx.check(ok, f.fq, "from_inp(label, all input hashes, all env deps, shell=, env_overrides=)", f"call passes {args} {kws}: an ingredient is dropped at the call site", "all ingredients passed", where=ctx.where_of(f, c))
-                src = re.sub(r"\s+", " ", ast.unparse(f.node))
-                ctx.check("shell = run.step.uses_shell()" in src and "env_overrides = run.step.get_env_overrides()" in src, f.fq, "shell and overrides come from the step's own row", "provenance changed", "own row")
-    if n != 2:
-        raise AnalysisError(f"expected 2 StepHash.from_inp call sites in executor.py, found {n}")
+    shared.check_from_inp_call_sites(ctx, "an ingredient is dropped or read from another source at one call site: configurations that differ in it share a digest")
 
 
 def rule_sorted_loops(ctx):
